@@ -469,8 +469,8 @@ Definition names_accessory (point : bool) (w : world) (id asp : N) : Prop :=
     ((exists m a, In m (if point then b_pts b else b_sigs b) /\ ba_id m = id /\ In a (ba_aspects m) /\ as_id a = asp) \/
      (exists m a, In m (if point then b_dpts b else b_dsigs b) /\ dc_id m = id /\ In a (dc_aspects m) /\ da_id a = asp)).
 
-(* what the code checks before it answers 0 (weaker than the property text: no check of the function state
-   value, of the track-output state value, of the 7-bit range of accessory numbers, of the reverser's board) *)
+(* what the code checks before it answers 0 (weaker than the property text: no check of the
+   track-output state value, of the 7-bit range of accessory numbers, of the reverser's board) *)
 Definition accepted (w : world) (c : command) : Prop :=
   match c with
   | SwitchPoint p a => names_accessory true w p a
@@ -481,7 +481,7 @@ Definition accepted (w : world) (c : command) : Prop :=
   | SetCalibratedSpeed t sp o => (-9 <= sp <= 9)%Z /\ (exists tr, In tr (w_trains w) /\ tr_id tr = t /\ tr_calib tr <> None) /\
                                  names_output w o
   | EmergencyStop t o => names_train w t /\ names_output w o
-  | SetTrainPeripheral t p _ o => (exists tr m, In tr (w_trains w) /\ tr_id tr = t /\ In m (tr_pers tr) /\ tp_id m = p) /\
+  | SetTrainPeripheral t p st o => st <= 1 /\ (exists tr m, In tr (w_trains w) /\ tr_id tr = t /\ In m (tr_pers tr) /\ tp_id m = p) /\
                                   names_output w o
   | SetBooster b _ => exists bd, In bd (w_boards w) /\ b_id bd = b /\ b_conn bd = true /\ is_booster bd = true
   | SetTrackOutput b _ => names_output w b
@@ -547,7 +547,7 @@ Proof.
     destruct (negb (is_track_output b)) eqn:Ek; [discriminate|]. intros _.
     apply (find_key_in tr_id) in Et as [Ht1 Ht2]. apply (find_key_in b_id) in Eb as [Hb1 Hb2].
     split; [exists tr; auto|]. exists b. repeat split; auto using negb_false_true.
-  - unfold set_train_peripheral.
+  - unfold set_train_peripheral. destruct (1 <? state) eqn:Est; [discriminate|]. apply N.ltb_ge in Est.
     destruct (find_train w t) as [tr|] eqn:Et; [|discriminate].
     destruct (find_board w out) as [b|] eqn:Eb; [|discriminate].
     destruct (negb (b_conn b)) eqn:Ec; [discriminate|].
@@ -555,7 +555,7 @@ Proof.
     destruct (find (fun m0 => tp_id m0 =? p) (tr_pers tr)) as [mp|] eqn:Ep; [|discriminate]. intros _.
     apply (find_key_in tr_id) in Et as [Ht1 Ht2]. apply (find_key_in b_id) in Eb as [Hb1 Hb2].
     apply (find_key_in tp_id) in Ep as [Hp1 Hp2].
-    split; [exists tr, mp; auto|]. exists b. repeat split; auto using negb_false_true.
+    split; [exact Est|]. split; [exists tr, mp; auto|]. exists b. repeat split; auto using negb_false_true.
   - unfold set_booster_power_state. destruct (find_board w b) as [bd|] eqn:Eb; [|discriminate].
     destruct (negb (b_conn bd)) eqn:Ec; [discriminate|]. destruct (negb (is_booster bd)) eqn:Ek; [discriminate|]. intros _.
     apply (find_key_in b_id) in Eb as [Hb1 Hb2]. exists bd. repeat split; auto using negb_false_true.
@@ -603,14 +603,11 @@ Proof. vm_compute. reflexivity. Qed.
 Lemma wit_accessory_aspect : cmd wit_world (SwitchPoint 3 1) = Done 0 [] wit_world.
 Proof. vm_compute. reflexivity. Qed.
 
-(* (i) state = 2 on function bit 0: return 0, function byte 2, bit 0 stays off, the neighbour (bit 1) is switched on *)
-Lemma wit_function_state2 : exists w',
-  cmd wit_world (SetTrainPeripheral 7 8 2 1) = Done 0 [((0, 0, 0), MSG_CS_DRIVE, [35; 1; 3; 2; 0; 2; 0; 0; 0])] w' /\
-  tracked wit_world 7 9 = Some 0 /\ tracked w' 7 8 = Some 0 /\ tracked w' 7 9 = Some 1.
-Proof. eexists. vm_compute. repeat split; reflexivity. Qed.
-(* state = 255: return 0, nothing transmitted *)
-Lemma wit_function_state255 : cmd wit_world (SetTrainPeripheral 7 8 255 1) = Done 0 [] wit_world.
+(* state other than 0/1: rejected (repaired in /repo fafecdd; was: return 0, neighbouring bit switched on) *)
+Lemma wit_function_state2 : cmd wit_world (SetTrainPeripheral 7 8 2 1) = Done 1 [] wit_world.
 Proof. vm_compute. reflexivity. Qed.
+Lemma function_bad_state w t p st o : 1 < st -> cmd w (SetTrainPeripheral t p st o) = Done 1 [] w.
+Proof. intros H. cbn [cmd]. unfold set_train_peripheral. apply N.ltb_lt in H. rewrite H. reflexivity. Qed.
 
 (* (iii) function bit 6 (accepted by the config parser): switching it on returns 0 and transmits nothing *)
 Lemma wit_function_bit6 : cmd wit_world (SetTrainPeripheral 7 10 1 1) = Done 0 [] wit_world.
@@ -1099,7 +1096,7 @@ Section Fn.
     set_train_peripheral w (tr_id tr) per st (b_id b) =
     Done 0 [(b_addr b, MSG_CS_DRIVE, drive_data fn_drive)] (state_cs_drive w fn_drive).
   Proof.
-    intros Ha. unfold set_train_peripheral.
+    intros Ha. unfold set_train_peripheral. assert ((1 <? st) = false) as -> by (apply N.ltb_ge, Hst).
     rewrite (find_train_unique w tr Hwf Htr), (find_board_unique w b Hwf Hb), Hc, Hk. cbn [negb].
     fold pers. rewrite fn_find_m. fold bit. rewrite Eg, cur_bits_ok.
     assert ((32 <=? bit) = false) as -> by (apply N.leb_gt, fn_bit32).
@@ -1249,7 +1246,7 @@ Proof.
     destruct (nth_error cal (Nat.pred (Z.abs_nat speed))) eqn:En; [apply set_train_speed_nofault, Hwf|].
     apply nth_error_None in En. lia.
   - unfold emergency_stop_train. break_goal; discriminate.
-  - unfold set_train_peripheral.
+  - unfold set_train_peripheral. destruct (1 <? state); [discriminate|].
     destruct (find_train w t) as [tr|] eqn:Et; [|discriminate].
     destruct (find_board w out) as [b|]; [|discriminate].
     destruct (negb (b_conn b)); [discriminate|]. destruct (negb (is_track_output b)); [discriminate|].
@@ -1776,6 +1773,6 @@ Proof.
   - intros p a H. apply cmd_bad; [exact Hwf|]. cbn [accepted]. intros (b & Hb & Hc & [(m & x & Hm & Hid & _)|(m & x & Hm & Hid & _)]).
     + exact (proj1 (H b Hb Hc) m Hm Hid).
     + exact (proj2 (H b Hb Hc) m Hm Hid).
-  - intros t p s o H. apply cmd_bad; [exact Hwf|]. cbn [accepted]. intros (_ & b & Hb & Hid & Hc & _).
+  - intros t p s o H. apply cmd_bad; [exact Hwf|]. cbn [accepted]. intros (_ & _ & b & Hb & Hid & Hc & _).
     rewrite (H b Hb Hid) in Hc. discriminate.
 Qed.
